@@ -185,12 +185,89 @@ Denote(roots, c) == [i \in 1..Len(roots) |-> Den(roots[i], FALSE, c)] \o (IF Use
 RECURSIVE HasKind(_, _)
 HasKind(kids, kind) == \E j \in 1..Len(kids) : kids[j][1] = kind \/ (kids[j][1] \in {"quote", "ul", "ol", "li"} /\ HasKind(kids[j][3], kind))
 
+\* ------------------------------------------------------------------ the formatter as a program over the abstract document (G3)
+(* format.Format (format/format.go) walks the tree; preBlock / postBlock / visitInline hand strings to the indenting writer
+   (Format.tla models that writer byte by byte; here it works on TOKENS: "\n" or a string without a line ending - TLC cannot look
+   inside a string). What is written depends on the writer's own state (hasWritten, startedLine), so the program is a state
+   transformer. FmtText(roots, ch) is the exact text Format must produce for Parse(Markdown(roots, ch)).
+   Two statements rest on it:
+     style      Format(Parse(Markdown(doc, ch))) = FmtText(doc, ch)            (direction A; a difference that keeps the meaning is
+                                                                                MODEL-DRIFT, the property does not fix the style)
+     meaning    Full.tla's Model(FmtText(doc, ch)).html = Denote(doc)          (checked by TLC through FullTrace.tla: C20's second
+                                                                                clause as a theorem of the two models)            *)
+NL == "\n"
+\* what visitInline / postInline make of snippet i: text nodes get the formatter's escapes, emphasis / code spans / raw tags / images /
+\* references / breaks are copied from the source, links are re-assembled (shortcut references become collapsed ones)
+InlF(i) ==
+  CASE i = 12 -> <<"\\*\\_\\#\\[\\]\\<\\>\\&\\\\\\`!\\-+.()\"'">>
+    [] i = 13 -> <<"&amp; &copy; &#65; &#x42; \\&ampx;">>
+    [] i = 14 -> <<"[t][r] [r][] [r][]">>
+    [] i = 15 -> <<"[t", "u](/u \"ti", "tle\") z">>
+    [] i = 18 -> <<"a \\< b \\> c \\& d \" e ' f">>
+    [] i = 23 -> <<"\\~\\~\\~ a">>
+    [] i = 25 -> <<"a", "\\=\\=\\=">>
+    [] i = 28 -> <<"[r", "s][] [r", "s][]">>
+    [] OTHER -> Inl(i, "\n").lines
+\* lines -> tokens (a line ending between two lines, none after the last)
+Toks(ls) == LET RECURSIVE T(_) T(k) == IF k > Len(ls) THEN <<>> ELSE (IF k > 1 THEN <<NL>> ELSE <<>>) \o <<ls[k]>> \o T(k + 1) IN T(1)
+\* every line followed by its line ending (code and HTML block content)
+TokLines(ls) == LET RECURSIVE T(_) T(k) == IF k > Len(ls) THEN <<>> ELSE (IF ls[k] = "" THEN <<>> ELSE <<ls[k]>>) \o <<NL>> \o T(k + 1) IN T(1)
+\* the indenting writer: lines finished so far, the line being written, the indent stack (entries [s, t = s without trailing blanks, blank])
+W0 == [lines |-> <<>>, cur |-> "", started |-> FALSE, written |-> FALSE, ind |-> <<>>]
+IndOf(str) == IF str = "> " THEN [s |-> "> ", t |-> ">", blank |-> FALSE] ELSE [s |-> str, t |-> "", blank |-> TRUE]    \* "> " or spaces
+RECURSIVE FlatInd(_), TrimInd(_)
+FlatInd(ind) == IF ind = <<>> THEN "" ELSE ind[1].s \o FlatInd(Tail(ind))
+TrimInd(ind) == IF ind = <<>> THEN "" ELSE IF ind[Len(ind)].blank THEN TrimInd(SubSeq(ind, 1, Len(ind) - 1))
+                ELSE FlatInd(SubSeq(ind, 1, Len(ind) - 1)) \o ind[Len(ind)].t
+W(st, tok) ==
+  IF tok = "" THEN st
+  ELSE IF tok = NL THEN (IF st.started THEN [st EXCEPT !.lines = Append(@, st.cur), !.cur = "", !.started = FALSE, !.written = TRUE]
+                         ELSE [st EXCEPT !.lines = Append(@, TrimInd(st.ind)), !.written = TRUE])
+  ELSE IF st.started THEN [st EXCEPT !.cur = @ \o tok, !.written = TRUE]
+  ELSE [st EXCEPT !.cur = FlatInd(st.ind) \o tok, !.started = TRUE, !.written = TRUE]
+RECURSIVE WT(_, _)
+WT(st, toks) == IF toks = <<>> THEN st ELSE WT(W(st, Head(toks)), Tail(toks))
+PushI(st, str) == [st EXCEPT !.ind = Append(@, IndOf(str))]
+PopI(st) == [st EXCEPT !.ind = SubSeq(@, 1, Len(@) - 1)]
+Sep(st) == IF st.written THEN W(st, NL) ELSE st      \* "if fw.hasWritten { fw.s("\n") }"
+\* FB(nd, idx, ptight, c, st): Pre, children, Post of block nd, the idx-th block (0-based) of its container; ptight: the container is an item of a tight list
+RECURSIVE FB(_, _, _, _, _), FSeq(_, _, _, _, _), FItems(_, _, _, _, _, _)
+FB(nd, idx, ptight, c, st) ==
+  LET k == nd[1] IN
+  CASE k = "para" -> LET s1 == IF idx = 0 THEN st ELSE W(st, NL)
+                         s2 == WT(s1, Toks(InlF(nd[2])))
+                     IN IF ptight THEN s2 ELSE W(s2, NL)
+    [] k = "hr" -> IF ~st.written THEN WT(st, <<"***", NL, NL>>)
+                   ELSE IF ptight THEN WT(st, <<NL, "---", NL>>) ELSE WT(st, <<NL, "---", NL, NL>>)
+    [] k = "atx" -> W(WT(W(Sep(st), Rep("#", nd[2][1]) \o " "), Toks(InlF(nd[2][2]))), NL)
+    [] k = "setext" -> WT(WT(Sep(st), Toks(InlF(nd[2][2]))), <<NL, IF nd[2][1] = 1 THEN "=====" ELSE "-----", NL>>)
+    [] k = "fence" -> WT(WT(WT(Sep(st), <<"```" \o (IF nd[2][1] THEN "lang extra" ELSE ""), NL>>), TokLines(Code(nd[2][2]).lines)), <<"```", NL>>)
+    [] k = "icode" -> WT(WT(WT(Sep(st), <<"```", NL>>), TokLines(Code(nd[2]).lines)), <<"```", NL>>)
+    [] k = "html" -> WT(Sep(st), TokLines(Html(nd[2])))
+    [] k = "quote" -> PopI(FSeq(nd[3], 1, FALSE, c, PushI(W(Sep(st), "> "), "> ")))
+    [] k = "ul" -> FItems(nd[3], 1, nd[2], FALSE, c, Sep(st))
+    [] k = "ol" -> FItems(nd[3], 1, nd[2], TRUE, c, Sep(st))
+FSeq(kids, i, ptight, c, st) == IF i > Len(kids) THEN st ELSE FSeq(kids, i + 1, ptight, c, FB(kids[i], i - 1, ptight, c, st))
+FItems(items, i, tight, ordered, c, st) ==
+  IF i > Len(items) THEN st
+  ELSE LET marker == IF ordered THEN Digits(c.ostart + i - 1) \o c.odelim ELSE c.bullet
+           s1 == IF i > 1 /\ ~tight THEN W(st, NL) ELSE st
+           s2 == PushI(WT(s1, <<marker, " ">>), Spaces(Len(marker) + 1))
+           s3 == PopI(FSeq(items[i][3], 1, tight, c, s2))
+           s4 == IF s3.started THEN W(s3, NL) ELSE s3
+       IN FItems(items, i + 1, tight, ordered, c, s4)
+FmtState(roots, c) ==
+  LET s1 == FSeq(roots, 1, FALSE, c, W0) IN
+  IF UsesRef(roots) THEN WT(WT(Sep(s1), <<"[r]: /ru \"rt\"", NL>>), <<NL, "[r s]: /rs \"st\"", NL>>) ELSE s1
+FmtText(roots, c) == LET st == FmtState(roots, c) IN
+                     JoinLines([k \in 1..Len(st.lines) |-> Ln(st.lines[k], FALSE)], "\n", TRUE, 1) \o st.cur
+
 \* ------------------------------------------------------------------ generator machine
 \* C20 (second clause): the supported construct set fixed in DESIGN.md section C20 - no tabs, LF only, no <...> destinations
 \* (snippet 7), and inside a quote or list item no emphasis / link / code span / raw tag that contains a line ending
 \* (snippets 15, 16, 17, 20: the formatter copies their source verbatim and re-indents it).
 FmtMode == LeafSet \in {"fstructure", "finline", "fcode"}
-FmtInl == (1..NInl) \ {7}
+FmtInl == (1..NInl) \ {7, 27}      \* 7: <...> destination; 27: destination and title that need escapes (outside the supported set of DESIGN.md C20)
 MultiLineVerbatim(i) == i \in {15, 16, 17, 20, 28}
 Leaves ==
   CASE LeafSet \in {"structure", "fstructure"} -> {<<"para", 1, <<>>>>, <<"para", 2, <<>>>>, <<"atx", <<2, 1>>, <<>>>>, <<"setext", <<1, 2>>, <<>>>>, <<"hr", 0, <<>>>>,
@@ -249,7 +326,9 @@ ChoiceOK == /\ (ch.eol # "\n" => ch.final)
             /\ (ch.tab => ch.lead = 0)
             /\ (~ch.final => ~HasKind(stack[1].kids, "html"))    \* an HTML block at end of input has no last line ending to copy
             /\ (FmtMode => ch.eol = "\n" /\ ~ch.tab)
-Emit == (Complete /\ ChoiceOK) => PrintT(ToJson([md |-> Markdown(stack[1].kids, ch), html |-> Denote(stack[1].kids, ch), ch |-> ch]))
+Emit == (Complete /\ ChoiceOK) =>
+          PrintT(ToJson([md |-> Markdown(stack[1].kids, ch), html |-> Denote(stack[1].kids, ch), ch |-> ch,
+                         fmt |-> IF FmtMode THEN FmtText(stack[1].kids, ch) ELSE ""]))
 
 \* model-level sanity: the denotation has one entry per root block (plus the empty rendering of the definition)
 DenoteShape == Complete => Len(Denote(stack[1].kids, ch)) = Len(stack[1].kids) + (IF UsesRef(stack[1].kids) THEN 2 ELSE 0)
